@@ -118,7 +118,7 @@ func codeForEnum(typ *an.Enum) gen.Declaration {
 		// trim a xxx_ suffix
 		vName := lowerFirst(v.Const.Name())
 		_, after, found := strings.Cut(vName, "_")
-		if found && after != "" { // keep names like X_ : nothing follows the separator
+		if found && after != "" && !(after[0] >= '0' && after[0] <= '9') { // keep names like X_ or X_2 : the rest is not an identifier
 			vName = after
 		}
 		names = append(names, lowerFirst(vName))
